@@ -4,7 +4,7 @@ Refuses to write an entry without a reviewed reason."""
 import sys
 sys.path.insert(0, '/verif/rules'); sys.path.insert(0, '/verif/tools')
 import harness, facts, inventory, c03
-from panics_reasons import R
+from panics_reasons import R, REQ
 paths, th = harness.mir_facts('Q')
 F = facts.Facts(paths)
 sites = [s for s in inventory.failure_sites(F) if not c03.is_box_deref_site(F, s)]
@@ -22,8 +22,11 @@ for (r, k, d), v in sorted(g.items()):
         continue
     verdict, reason = hit[0][1]
     extra = []
+    rq = [val for (sfx, kk, dd), val in REQ.items() if kk == k and dd == d and r.endswith(sfx)]
+    if rq and rq[0]:
+        extra.append("requires = [" + ", ".join('"%s"' % x for x in rq[0]) + "]")
     if verdict.startswith("finding:"):
-        extra = [f'finding_for = "{verdict.split(":")[1]}"']
+        extra.append(f'finding_for = "{verdict.split(":")[1]}"')
         verdict = "discharged"
     out += ["[[site]]", f'function = "{r}"', f'kind = "{k}"', f'detail = "{d}"', f"count = {len(v)}",
             f'verdict = "{verdict}"'] + extra + ['reason = """' + reason.replace('\\', '\\\\') + '"""', ""]
